@@ -319,4 +319,15 @@ Definition filter_pmt_packets (pkts : list bytes) (want : list N) : Res (option 
   Ok (Some out, rerr)
   end end.
 
+(* nested module: `Import Pmt` does not bring these names into scope *)
+Module Consts.
+(* ---- exported constants of psi/pat.go and psi/pmt.go, in source order (coverage: notes/coverage.md) ---- *)
+Definition PatPid : N := 0.
+Definition PidNotFound : N := 65535.
+Definition PSIHeaderLen : N := 4.
+Definition CrcLen : N := 4.
+Definition exported_consts : list N :=
+  [PatPid; PidNotFound; PSIHeaderLen; CrcLen].
+End Consts.
+
 End Pmt.
